@@ -75,10 +75,6 @@ NOT_APPLICABLE = {
     "C19": "access control is an attribute on ~200 Anchor entrypoints whose bodies need Context<..> with PDA-validated AccountInfos, "
            "token CPIs and sysvars; a hand-built AccountInfo + real AccountLoader + RevertibleMarket::new did not finish symbolic execution in 600 s for a single pool read (probed), "
            "so a property quantified over all instructions is out of reach of solver-based checking here.",
-    "C24": "PriceValidator::{validate_one, merge_range, finish} and SmallPrices::from_price are exposed through cfg(gmsol_verif) hooks and their MIR->SMT obligations are being written (mir2smt/props/C24.py); "
-           "not claimed until that check is quiet on the unchanged tree. Oracle::with_prices_opts (clear on both paths) needs account loaders.",
-    "C29": "try_adjust_price_with_max_deviation_factor is exposed through a cfg(gmsol_verif) hook and its MIR->SMT obligations are being written (mir2smt/props/C29.py); not claimed until quiet.",
-    "C30": "GtState mint/burn/rank/mint-cost obligations are being written for the MIR->SMT engine (mir2smt/props/C30.py); mint_to itself runs 256-bit ruint arithmetic (div_to_factor) behind Clock::get and does not finish in CBMC. Not claimed until quiet.",
     "C36": "timelock state-level harnesses (InstructionHeader::approve / is_executable, TimelockConfig::increase_delay, InstructionAccess::to_instruction) are being built in harness/periph; not claimed until quiet.",
     "C37": "treasury state-level harnesses (Config factors, GtBank transitions) are being built in harness/periph; not claimed until quiet. The proportional-claim formula is inline in CompleteGtExchange::execute behind token CPIs.",
     "C38": "compute_time_weighted_apy / calculate_gt_reward_amount harnesses are being built in harness/periph (53-bucket loops of saturating 128-bit products: expensive); not claimed until quiet. unstake_lp needs token CPIs.",
